@@ -48,3 +48,7 @@ package krpc
 //@   ensures only-whole-elements: result == nil ==> len(b) % recorded("elemsize") == 0
 //@   loop 1
 //@     invariant whole-elements-consumed: len(b) <= old(len(b)) && (old(len(b)) - len(b)) % bytesPerElem == 0 && (bytesPerElem == 6 || bytesPerElem == 18 || bytesPerElem == 20 || bytesPerElem == 26 || bytesPerElem == 38) && bytesPerElem == recorded("elemsize") && err == nil
+
+// guarded by recover(): outside the subset as it stands; the contract takes effect if the function is ever rewritten without it
+//@ func (*dht/krpc.Error).UnmarshalBencode
+//@   requires nonnil: e != nil
